@@ -340,6 +340,7 @@ package types
 //@ property C08 := (GroupID).Validate#*
 // C05: the id mapping between deployments and their escrow accounts (restored: the line was lost when the id views moved)
 //@ property C05 := (DeploymentID).Validate#*, EscrowAccountForDeployment#*, ParseDeploymentPath#*, ParseDeploymentID#*, DeploymentIDFromEscrowAccount#*
+//@ property C06 := (DeploymentID).Validate#*, EscrowAccountForDeployment#*, DeploymentIDFromEscrowAccount#*
 //@ property C04 := EscrowAccountForDeployment#*, (Deployment).ID#*, (Group).ID#*, (GroupID).DeploymentID#*, MakeGroupID#*, (DeploymentID).Equals#*, (GroupID).Equals#*,
 //@                 (Group).ValidateClosable#*, (Group).ValidatePausable#*, (Group).ValidateStartable#*,
 //@                 NewEventDeploymentCreated#*, NewEventDeploymentUpdated#*, NewEventDeploymentClosed#*, NewEventGroupClosed#*, NewEventGroupPaused#*, NewEventGroupStarted#*
